@@ -96,7 +96,7 @@ def run(chk, replay=None):
     else:
         acases = acc_cases(chk.rng, chk.tier)
         ccases = connlib.load_cases(os.path.join(vlib.ROOT, "corpus", "C11", "*.case"))
-        n = 700 if chk.tier == "quick" else 30000
+        n = 700 if chk.tier == "quick" else 8000
         for i in range(n):
             ccases.append(connlib.gen_case(chk.rng, "f%d" % i, "faults", maxops=22 if chk.tier == "quick" else 40))
     for env, tag in (({}, "epoll"), ({"MUDUO_USE_POLL": "1"}, "poll")):
@@ -165,6 +165,13 @@ def run(chk, replay=None):
     chk.cov["cases_with_faults"] = nfault
     chk.add_obligation("correspondence: C11_Model (listener) and Conn_Model (connection) == real Acceptor / TcpConnection under scripted faults", not corr_bad)
     chk.add_obligation("oracle: faulted run == fault-free twin on streams, callbacks, state; listener conservation; no abort/spin", not orc_bad)
+    if chk.tier == "thorough" and not replay:
+        ok_soak, soak_bad, summ = connlib.soak(chk, "C11")
+        chk.cov["soak"] = summ
+        chk.add_obligation("free-running loopback soak (real TcpServer, both pollers, 0/1/3 io threads, EINTR showers on the loop threads, 4 KiB kernel send buffers): "
+                           "no wedge, no descriptor left open, streams intact", ok_soak)
+        for m in soak_bad:
+            orc_bad.append((vlib.Case("soak", "soak", [m], "soak"), 0, "free-running soak: " + m))
     chk.trusted("translator lib/gen_C11.py: switch tables of sockets::accept and Connector::connect from the clang AST, errno values from Python's errno module",
                 "harness/C11_driver.cc (loopback listener, --wrap=accept4/epoll_wait/poll, fatal classes in a forked child), harness/Conn_driver.cc",
                 "extraction: ExtrOcamlBasic only")
